@@ -846,6 +846,8 @@ class CookLevel(FragmentTask):
         I, R = z3.IntSort(), z3.RealSort()
         off = [z3.Int(f"off{i}") for i in range(3)]
         ctx.assume(z3.And(z3.Distinct(*off), *[x >= 0 for x in off]))
+        from pyvc.task import require_return_arity
+        require_return_arity(ex, [CF + k for k in ("chefs_knife_single_field", "chefs_knife_byspecies_field", "chefs_knife_byreaction_field", "chefs_knife_user_sarray", "chefs_knife_user_pfile")], 3)
         NEWOFF = z3.Function("NEWOFF", I, I, I)
         MN, MX = z3.Function("KMIN", I, I, I, R), z3.Function("KMAX", I, I, I, R)
         files = sorted(set(CFILES))
@@ -920,6 +922,9 @@ class CookScatter(FragmentTask):
                 return e
             return NDArray([len(rows), 2], el, "f8")
         output = [(Vec(offs[f], "array"), arr2(mins[f]), arr2(maxs[f])) for f in range(2)]
+        from pyvc.task import require_return_arity
+        require_return_arity(ex, [CF + k for k in ("chefs_knife_single_field", "chefs_knife_byspecies_field", "chefs_knife_byreaction_field", "chefs_knife_user_sarray", "chefs_knife_user_pfile")], 3)
+
         def knife(ex_, args, kw):
             return output[args[0]]
         knife._pyvc_builtin = True
